@@ -280,6 +280,46 @@ def check(case, acc, tmp):
                     acc.violation('by-id:count', 'kept %d ids, expected min(n,N)=%d' % (len(O.ids(R, axis)), min(n, nid)), c)
                 acc.count('clause:by-id')
                 P.state(acc, 'id', O.content_key(R))
+    # -------------------------------------------------------------- the generator entry point
+    if not case.get('only'):
+        from biom.util import generate_subsamples
+        for axis in ('sample', 'observation'):
+            vecs = [D[:, j] for j in range(D.shape[1])] if axis == 'sample' else [D[i, :] for i in range(D.shape[0])]
+            ax_ids = s if axis == 'sample' else o
+            for n in case['ns'][:2]:
+                for by_id in (False, True):
+                    t, _, _, _ = make(case)
+                    acc.trans += 2
+                    acc.evals += 1
+                    c = dict(case, generator=[axis, n, by_id])
+                    try:
+                        gen = generate_subsamples(t, n, axis=axis, by_id=by_id)
+                        R1 = next(gen)
+                        R2 = next(gen)
+                    except Exception as e:
+                        acc.violation('generate_subsamples:raised:' + type(e).__name__,
+                                      'generate_subsamples raised %s: %s' % (type(e).__name__, e), c)
+                        continue
+                    if O.content(t) != src_content:
+                        acc.violation('input-modified:generate_subsamples', 'generate_subsamples modified the table '
+                                      'it draws from', c)
+                        continue
+                    okk = True
+                    for R in (R1, R2):
+                        rid = list(O.ids(R, axis))
+                        if by_id:
+                            okk = okk and len(rid) <= min(n, len(ax_ids)) and all(i in ax_ids for i in rid)
+                        else:
+                            want = [ax_ids[k] for k, v in enumerate(vecs) if v.sum() >= n]
+                            A = np.asarray(R.matrix_data.toarray())
+                            okk = okk and (rid == want or (not A.size and not want))
+                            if A.size:
+                                okk = okk and bool(np.all(A.sum(axis=0 if axis == 'sample' else 1) == n))
+                    if not okk:
+                        acc.violation('generate_subsamples:result', 'generate_subsamples(%d, %s, by_id=%s) yields a '
+                                      'table that is not a subsample of its input' % (n, axis, by_id), c)
+                    else:
+                        acc.count('clause:generate_subsamples')
     # -------------------------------------------------------------- real generator
     if case.get('only'):
         return
@@ -340,7 +380,8 @@ def run(run):
     run.extra['bound'] = {'tables': len(table_specs(run.tier)), 'cases': len(cs),
                           'entry_ranges': '2x2: 0..3, n 1..4; 1x3/3x1: 0..2, n 1..3; 2x3/3x2: 0..%d' % (1 if run.quick else 2),
                           'real_generator_seeds': 4 if run.quick else 16}
-    vacuity(run, ['clause:without-replacement', 'clause:with-replacement', 'clause:by-id', 'clause:real-generator'])
+    vacuity(run, ['clause:without-replacement', 'clause:with-replacement', 'clause:by-id', 'clause:real-generator',
+                  'clause:generate_subsamples'])
     run.assumptions += ['numpy.random.Generator.choice(replace=False) / multinomial / shuffle are uniform as documented '
                         '(trusted): with the exact per-answer mapping and the checked generator arguments this is the '
                         '"each unit / id equally likely" clause, decided exactly rather than statistically',
